@@ -221,27 +221,27 @@ def run(chk):
         chk.violation("crc-table", "crc32_tab[] in hash.c differs from the table the theorem crc32_table_eq_bitwise is about (entries %s, %d vs %d entries)"
                       % (diff[:4], len(tab_src), len(tab_model)), {"entries": diff[:16]}, found_input=False)
 
-    # ---- which break condition does each loop copy implement?  (Theorem addressed_bytes_exact_refuted replayed)
+    # ---- the model is the current code (fixd = true: `if (past_first_block && ...) break;`).  The witness of
+    # addressed_bytes_exact_refuted (pinned 4.5.2 loop) is replayed on every loop copy: a copy that still behaves
+    # like the pinned variant is a violation (and then also disagrees with the model in the grids below).
     two = [(0, b"abc"), (3, b"def")]
-    pb = Batch("probe-0", ["blocks - " + " ".join("%d:%s" % (b, hx(d)) for b, d in two), "scanblocks"])
+    scan2 = ["blocks - " + " ".join("%d:%s" % (b, hx(d)) for b, d in two), "scanblocks"]
     names = list(PROBE)
-    out, _ = vlib.run_cases(hscan, [("probe", Batch("probe", pb.scan_cmds).case()[1][:2] +
-                                     ["add " + hx((IMPORTS + "\n".join("rule p%d { condition: defined %s }" % (i, PROBE[n]) for i, n in enumerate(names))).encode()),
-                                      "getrules", "scanner 0"] + pb.scan_cmds)])
+    psrc = IMPORTS + "\n".join("rule p%d { condition: defined %s }" % (i, PROBE[n]) for i, n in enumerate(names))
+    out, _ = vlib.run_cases(hscan, [("probe", ["newcompiler", "strings 0", "add " + hx(psrc.encode()), "getrules", "scanner 0"] + scan2)])
     sc = [l for l in out.get("probe", []) if l.startswith("scan msgs=")]
-    fx = {n: False for n in LOOPS}
-    if sc:
-        got = set(re.findall(r"M:default:p(\d+)", sc[0]))
-        for i, n in enumerate(names):
-            fx[n] = str(i) in got
-    old = [n for n in names if not fx[n]]
+    fx = {n: True for n in LOOPS}
+    got = set(re.findall(r"M:default:p(\d+)", sc[0])) if sc else set()
+    old = [n for i, n in enumerate(names) if str(i) not in got]
+    stats["evaluations"] += len(names)
+    stats["agree"] += len(names) - len(old)
     if old:
         chk.violation("zero-length-at-block-boundary",
                       "a zero-length range starting exactly where a later memory block starts is undefined (%s; blocks 0:'abc', 3:'def': `defined %s` is false) "
-                      "while the same bytes scanned as one block give the value for the empty range: the result depends on how memory is cut into blocks "
-                      "(theorem addressed_bytes_exact_refuted)" % (", ".join(old), PROBE[old[0]]),
+                      "while the same bytes scanned as one block give the value for the empty range: the loop behaves like the pinned 4.5.2 variant "
+                      "(theorem addressed_bytes_exact_refuted), not like the model of the current code (addressed_bytes_exact_partition)" % (", ".join(old), PROBE[old[0]]),
                       {"blocks": [[0, "616263"], [3, "646566"]], "rules": ["defined " + PROBE[n] for n in old], "single_block_result": "defined"})
-    chk.note(loop_variant={n: ("repaired" if fx[n] else "4.5.2") for n in LOOPS})
+    chk.note(loop_variant={n: ("pinned-4.5.2" if n in old else "current") for n in LOOPS})
 
     def fxs(n):
         return "1" if fx.get(n, False) else "0"
@@ -549,27 +549,33 @@ def run(chk):
         classes.add(("intmath", fn, "undef" if v == "undef" else "value"))
     fb.add("math.to_number(1 == 1) == 1 and math.to_number(1 == 2) == 0 and math.to_number(true) == 1 and math.to_number(false) == 0", "intmath:to_number", {"why": "definition"})
     run_batches(chk, hscan, [fb], stats)
-    # abs(INT64_MIN): theorem abs_refuted replayed
+    # abs(INT64_MIN): the witness of abs_pinned_refuted replayed (the current code returns undefined: abs_exact)
     out, _ = vlib.run_cases(hscan, [("abs", Batch("abs", []).case()[1][:2] + [
         "add " + hx((IMPORTS + "rule a0 { condition: math.abs(-9223372036854775807 - 1) < 0 }").encode()), "getrules", "scanner 0", "scan " + hx(b"x")])])
     sc = [l for l in out.get("abs", []) if l.startswith("scan msgs=")]
     if sc and "M:default:a0" in sc[0]:
         chk.violation("abs-int64-min", "math.abs(-9223372036854775807 - 1) is negative: llabs(INT64_MIN) is undefined behaviour in C and returns INT64_MIN here "
-                      "(theorem abs_refuted; abs_partial holds for every other value)", {"rule": "math.abs(-9223372036854775807 - 1) < 0", "observed": "true"})
+                      "(pinned behaviour, theorem abs_pinned_refuted; the model of the current code says undefined, abs_exact)", {"rule": "math.abs(-9223372036854775807 - 1) < 0", "observed": "true"})
 
     # ---- G. (thorough) undefined behaviour in the module sources: UBSan build, lengths near INT64_MAX, abs(INT64_MIN)
     if thorough:
         ha = build.harness("h_scan", "asan")
         conds = ["hash.%s(1, 9223372036854775807) == %s" % (f, '"x"' if f in ALGS else "1") for f in ALGS + ["crc32", "checksum32"]]
         conds += ["math.%s(2, 9223372036854775806) == 1.5" % f for f in ("entropy", "serial_correlation", "monte_carlo_pi")]
+        conds += ["math.abs(-9223372036854775807 - 1) < 0"]
         srcu = IMPORTS + "\n".join("rule u%d { condition: %s }" % (i, c) for i, c in enumerate(conds))
         outu, erru = vlib.run_cases(ha, [("ub", ["newcompiler", "strings 0", "add " + hx(srcu.encode()), "getrules", "scanner 0", "scan " + hx(b"abcdefgh"),
                                                 "sdestroy", "destroyrules", "destroycompiler"])])
         ub = sorted(set(re.sub(r"^.*?/libyara/", "libyara/", l) for l in erru.split("\n") if "runtime error" in l and re.search(r"modules/(hash|math|string)/", l)))
         stats["evaluations"] += len(conds)
-        if ub:
-            chk.violation("ub-offset-plus-length", "UBSan: `offset + length` overflows int64 in the break condition of the range loops for lengths near INT64_MAX "
-                          "(e.g. hash.md5(1, 9223372036854775807)): " + "; ".join(ub)[:600], {"rules": conds, "buffer": "6162636465666768", "ubsan": ub})
+        known_ub = [l for l in ub if "signed integer overflow" in l and re.search(r"\d+ \+ \d+ cannot be represented", l)]
+        other_ub = [l for l in ub if l not in known_ub]
+        # `offset + length` in the break condition overflows int64 for lengths near INT64_MAX: undefined behaviour that the
+        # coordinator decided not to repair (the value is only compared, wraps on x86-64): recorded, named in the level note
+        chk.note(ubsan_offset_plus_length=known_ub[:12])
+        if other_ub:
+            chk.violation("ub-module", "UBSan reports in the hash/math/string module sources: " + "; ".join(other_ub)[:600],
+                          {"rules": conds + ["math.abs(-9223372036854775807 - 1) < 0"], "buffer": "6162636465666768", "ubsan": other_ub})
         else:
             stats["agree"] += len(conds)
 
@@ -586,5 +592,6 @@ def run(chk):
         "MD5/SHA1/SHA256 are libcrypto's: the theorems quantify over every streaming digest (init/update/final with update(update s a) b = update s (a++b)); the check compares with hashlib",
         "float statistics (entropy, mean, deviation, serial_correlation, monte_carlo_pi, percentage) are tests against Python reference definitions within 1e-9 (1e-6 for the float32 percentage), not theorems",
         "memory blocks are readable (yr_fetch_block_data != NULL) and block ends are below 2^63; strtoll is modelled for glibc / ISO C (white space of the C locale, no 0b prefix)",
+        "not covered: a block whose fetch_data returns NULL makes hash.* return the digest of the empty string (math.* returns undefined); `offset + length` overflows int64 (UB, UBSan) for lengths near INT64_MAX",
         "in_range is checked on multiples of 1/8 (exactly representable doubles)",
     ]
